@@ -274,6 +274,7 @@ def run(ix, R):
     # ---- 4. every constructor keyword is used
     use(ix, R, table)
     cli_binner(ix, R)
+    cli_final_model(ix, R)
     # ---- 5. API
     api_obligations(ix, R, '5.api', [FA + '::get_keywordarg_dict', FA + '::create_klass', FA + '::determine_klass',
                                      FA + '::create_model', FA + '::generate_contributions',
@@ -665,6 +666,39 @@ def use(ix, R, table):
                                'the value given in the input file is ignored' % (c.name, k), loc=f.loc())
     if n < 100:
         R.error('4.use.count', 'USE', 'taurex', 'constructor keywords are found', 'found %d' % n)
+
+
+def cli_final_model(ix, R):
+    """7.cli.final: what the command line saves (-S) and stores (-o) is the forward model evaluated AFTER the retrieval
+    has written its solution back (optimizer.fit / update_model), not an evaluation made before it."""
+    site = 'taurex/taurex.py::main'
+    with R.guard('7.cli.final', 'DOM', site, 'final model'):
+        f = ix.func(site)
+        fl = mkflow(ix, site)
+        stmt = ('the spectrum that is saved and stored is model.model() evaluated after the retrieval wrote its solution '
+                'into the model')
+        writers = [e for e in fl.of('call') if e.name in ('fit', 'update_model')]
+        uses = [e for e in fl.of('call') if e.name in ('generate_spectrum_output', 'bin_model') and e.node.args and
+                isinstance(e.node.args[0], ast.Name)]
+        if not writers or not uses:
+            R.error('7.cli.final', 'DOM', site, stmt, '%d fit/update_model calls, %d uses of a stored model result' % (
+                len(writers), len(uses)), loc=f.loc())
+            return
+        why = []
+        for u in uses:
+            nm = u.node.args[0].id
+            defs = [e for e in fl.of('assign') if e.name == nm and fl.events.index(e) < fl.events.index(u)]
+            if not defs:
+                continue
+            d = defs[-1]
+            if not (isinstance(d.node, ast.Assign) and isinstance(d.node.value, ast.Call) and
+                    unparse(d.node.value.func).endswith('.model')):
+                continue
+            late = [w for w in writers if fl.events.index(w) > fl.events.index(d)]
+            if late:
+                why.append('%s = %s (line %d) is evaluated before %s (line %d), and is what %s(...) is given' % (
+                    nm, unparse(d.node.value), d.node.lineno, unparse(late[-1].node)[:40], late[-1].node.lineno, u.name))
+        R.check('7.cli.final', 'DOM', site, stmt, not why, key='; '.join(w[:90] for w in why), detail='; '.join(why), loc=f.loc())
 
 
 def cli_binner(ix, R):
